@@ -93,3 +93,13 @@ Print Assumptions C14_lock_protocol.
 Theorem C14_check_outside_lock_refuted : exists h, lruns (lrun false h) = 2%nat.
 Proof. exists [AddLocked; Claim; RunSnap; AddFinish]. reflexivity. Qed.
 Print Assumptions C14_check_outside_lock_refuted.
+
+(* the session is shut down before the answer is processed: the executor refuses the retry / the schema refresh; the outcome is
+   delivered all the same (ConnectionShutdown, resp. the result of the schema-changing statement) *)
+Example C14_shutdown_before_answer :
+  pairs (run true true (init w_cfg1) [AddCb; Send; Shutdown; Resp 0 (RRetry DRetryNext)]) = [mkPair [] [5]]
+  /\ all_answered (run true true (init w_cfg1) [AddCb; Send; Shutdown; Resp 0 (RRetry DRetryNext)]) = true
+  /\ pairs (run true true (init w_cfg1) [AddCb; Send; Shutdown; Resp 0 RSchema]) = [mkPair [1] []]
+  /\ all_answered (run true true (init w_cfg1) [AddCb; Send; Resp 0 RSchema]) = false
+  /\ pairs (run true true (init w_cfg1) [AddCb; Send; Resp 0 RSchema; RunRefresh 0]) = [mkPair [1] []].
+Proof. vm_compute. repeat split. Qed.
